@@ -254,6 +254,20 @@ CLAIMED = {
         note="one known finding (CDATA NUL); two defects repaired in /repo.",
         technique="Coq proof (termination by a rank function over the regenerated model, association-list theorem) "
                   "+ translation + differential correspondence + specification machine run in extracted OCaml"),
+    "C08": dict(
+        category="proof",
+        text="Model Ser of the serializer's token loop (hand model, hash-pinned; quoting classes, tables and filter "
+             "order from the translator) tied to HTMLSerializer.render by exact agreement incl. the error list. "
+             "Theorems against S_tok (the WHATWG tokenizer transcription): for EVERY text and continuation the "
+             "escaped text is read back as exactly that text and the tokenizer is back in the data state (text can "
+             "never become markup); for EVERY value, the double-/single-quoted form Ser writes is read back as "
+             "exactly that value and ends at the closing quote. PARTIAL: unquoted values, names, comments, doctypes, "
+             "raw-text elements and the lift to whole streams are decided by re-tokenizing the real output with "
+             "S_tok (extracted) for trees parsed from generated markup x options; seven listed findings.",
+        design_ref="DESIGN.md 3 C08",
+        note="four serializer/parser defects repaired in /repo.",
+        technique="Coq proof (induction over text/value against the per-character specification machine) + "
+                  "differential correspondence + re-tokenization oracle in extracted OCaml"),
 }
 
 PENDING_REASON = "not yet built in this round (planned: Coq model + theorems per DESIGN.md section 3); no check is registered, so nothing is claimed"
